@@ -74,13 +74,27 @@ class DoneCmd(ps.Stop):
     pass
 
 
+# keyword NAMES of the arguments a step hands to the next one (`Continue(f, *a, **k)`): index -> name.  Among them the names of the
+# library's own parameters on the way from the command to the call of `f` (a keyword argument of the user's function may be
+# called `process`, `state_label`, `run_fn`, ... like anything else)
+KW_NAMES = ['k0', 'process', 'state_label', 'run_fn', 'label', 'msg', 'data', 'state', 'args', 'kwargs']
+
+
+def kw_name(a):
+    return KW_NAMES[a] if 0 <= a < len(KW_NAMES) else f'k{a}'
+
+
+def kw_index(name):
+    return KW_NAMES.index(name) if name in KW_NAMES else int(name[1:])
+
+
 def _make_body(i, awaits, oc):
     sub = i % 3 == 2          # every third function returns its command as an instance of a user-defined SUBCLASS
 
     def finish(self):
         k = oc[0]
         if k == 'cont':
-            return (RetryCmd if sub else ps.Continue)(getattr(self, f'f{oc[1]}'), *oc[2], **{f'k{a}': b for a, b in oc[3].items()})
+            return (RetryCmd if sub else ps.Continue)(getattr(self, f'f{oc[1]}'), *oc[2], **{kw_name(a): b for a, b in oc[3].items()})
         if k == 'wait':
             return (ParkCmd if sub else ps.Wait)(getattr(self, f'f{oc[1]}'))
         if k == 'stop' and oc[1] == 'AW':
@@ -100,7 +114,7 @@ def _make_body(i, awaits, oc):
 
     def record(self, a, kw):
         a = tuple(EXC_VALUE_CODE if isinstance(x, UserExc) else x for x in a)      # an exception INSTANCE passed as a plain value
-        self._trace.append((i, tuple(a), tuple(sorted((int(k[1:]), v) for k, v in kw.items())), bool(self.paused),
+        self._trace.append((i, tuple(a), tuple(sorted((kw_index(k), v) for k, v in kw.items())), bool(self.paused),
                             self.status))
 
     if awaits == 0:
